@@ -335,15 +335,25 @@ def run(ctx, col: Collector):
             if isinstance(n, ast.Call) and norm(n.func) in ('re.compile', 're.sub') and n.args and isinstance(n.args[0], ast.Constant):
                 pat = n.args[0].value
         if pat is None:
+            # a pattern compiled once at module level and used here through its name
+            mpats = module_patterns(idx, se.module)
+            used = [mpats[x.id] for x in ast.walk(se.node) if isinstance(x, ast.Name) and x.id in mpats]
+            if len(used) == 1:
+                pat = used[0]
+        if pat is None:
             raise Unrecognised('strip_empty_lines does not use a literal regular expression', se.node)
         ok, why = blank_line_stripper(pat)
         col.check(ok, 'C13-normalise', 'strip_empty_lines:pattern', 'the pattern removes leading "blanks + line break" groups and trailing "line break + blanks" groups only',
                   f'strip_empty_lines pattern {pat!r}: {why} - it would also remove whitespace that belongs to the first/last text line', node=se.node, file=se.file)
         # remove_indentation
         ri = idx.func('pydbml.tools', 'remove_indentation')
-        ok, why = indentation_remover(ri)
-        col.check(ok, 'C13-normalise', 'remove_indentation:shape', 'the indentation common to the non-blank lines is cut from every line',
-                  f'remove_indentation: {why}', node=ri.node, file=ri.file)
+        ok, why = indentation_remover(ri, idx)
+        if ok:
+            col.ok('C13-normalise', 'remove_indentation:shape', 'the indentation common to the non-blank lines is cut from every line', node=ri.node, file=ri.file)
+        elif why.startswith(('lines are measured under', 'indentation is measured', 'lines are split on')):
+            col.bad('C13-normalise', 'remove_indentation:shape', f'remove_indentation: {why}', node=ri.node, file=ri.file)
+        else:
+            col.unk('C13-normalise', 'remove_indentation:shape', f'remove_indentation is not read ({why})', node=ri.node, file=ri.file)
     guarded(col, 'C13-normalise', 'normalisation', normalise)
 
 
@@ -398,8 +408,24 @@ def blank_line_stripper(pat: str) -> Tuple[bool, str]:
     return True, ''
 
 
-def indentation_remover(ri: FuncInfo) -> Tuple[bool, str]:
+def module_patterns(idx, modname: str) -> Dict[str, str]:
+    """Module-level names bound to re.compile(<literal>): name -> pattern text."""
+    out: Dict[str, str] = {}
+    m = idx.modules.get(modname)
+    if m is None:
+        return out
+    for st in m.tree.body:
+        if isinstance(st, ast.Assign) and len(st.targets) == 1 and isinstance(st.targets[0], ast.Name) and isinstance(st.value, ast.Call) \
+                and norm(st.value.func) == 're.compile' and st.value.args and isinstance(st.value.args[0], ast.Constant) and isinstance(st.value.args[0].value, str):
+            out[st.targets[0].id] = st.value.args[0].value
+    return out
+
+
+def indentation_remover(ri: FuncInfo, idx=None) -> Tuple[bool, str]:
     """Recognise: measure leading whitespace of each non-blank line, take the minimum, cut it from every line."""
+    if idx is not None:
+        from ..inline import inlined_info
+        ri = inlined_info(idx, ri, depth=2)
     fn = ri.node
     src = [a.arg for a in fn.args.args][0]
     # (1) the lines
@@ -414,6 +440,9 @@ def indentation_remover(ri: FuncInfo) -> Tuple[bool, str]:
     why = 'no loop/comprehension over the lines that measures indentation'
     pats = {norm(n.targets[0]): n.value.args[0].value for n in walk_no_nested(fn) if isinstance(n, ast.Assign) and isinstance(n.value, ast.Call)
             and norm(n.value.func) == 're.compile' and n.value.args and isinstance(n.value.args[0], ast.Constant)}
+    if idx is not None:
+        used_names = {x.id for x in ast.walk(fn) if isinstance(x, ast.Name)}
+        pats.update({k: v for k, v in module_patterns(idx, ri.module).items() if k in used_names})
     for n in ast.walk(fn):
         loops = []
         if isinstance(n, ast.For) and norm(n.iter) == lines:
